@@ -14,6 +14,8 @@ pub mod t_names;
 pub mod g_roundtrip;
 pub mod p_parse;
 pub mod t_misc;
+pub mod x_ids;
+pub mod g_serial;
 
 pub type Harness = fn();
 pub fn registry() -> Vec<(&'static str, Harness)> {
@@ -29,5 +31,7 @@ pub fn registry() -> Vec<(&'static str, Harness)> {
     g_roundtrip::register(&mut v);
     p_parse::register(&mut v);
     t_misc::register(&mut v);
+    x_ids::register(&mut v);
+    g_serial::register(&mut v);
     v
 }
